@@ -303,6 +303,10 @@ for e, k, region in (('step_utilize', 4, 2), ('step_utilize', 0, 2), ('step_rand
         carriers=[r'C_<.*>::deepRequestUtilize', r'C_<.*>::deepRequestRandomize', r'C_<.*>::resolveRandom', r'CS_<.*>::wideReportUtilize', r'CS_<.*>::wideReportRank', r'CS_<.*>::wideReportRandomize', r'C_<.*>::deepRequestChangeUtilitarian', r'C_<.*>::deepRequestChangeRandom'],
         case_key='util/%s/%s region %d' % (e[5:], KIND_NAMES[k], region))
 
+for k in (5, 0):
+    job(id='C.util.randomize_exact.%s' % KIND_NAMES[k], tu=M_UTIL.tu, entry='step_randomize_exact', key=[k, 6], props=['C12', 'C01', 'C11'], unwind=22, objbits=12, timeout=1500,
+        carriers=[r'C_<.*>::resolveRandom', r'CS_<.*>::wideReportRandomize'], case_key='util/randomize exact grid/%s region 6' % KIND_NAMES[k])
+
 # ------------------------------------------------------------------ C06: plans on the plan machine
 M_PLAN = Machine('plan', 'tier_c/m_plan.cpp', [-1, 0, 0, 2, 2, 2], ['C', 'L', 'C', 'L', 'L', 'L'], unwind=14)
 for c in range(M_PLAN.count(0)):
@@ -361,6 +365,10 @@ for region, full, tier in ((2, 0, 'quick'), (3, 0, 'quick'), (9, 0, 'quick'), (2
 
 job(id='C.util.anonymous_defaults', tu='tier_c/m_util.cpp', defs={'VM_HEADLESS_UTIL': None}, entry='proof_anonymous_defaults', props=['C12', 'C02', 'C01'], unwind=18, objbits=12, timeout=600,
     carriers=[r'S_<.*>::wrapUtility', r'S_<.*>::deepReportUtilize', r'S_<.*>::wrapSelect'], case_key='anonymous head answers like the defaults')
+for _kind, _key in (('utilize', 0), ('change', 2)):
+    job(id='C.utilr.%s_resumable_in_util.r2' % _kind, tu='tier_c/m_util.cpp', defs={'VM_RESUMABLE_IN_UTIL': None}, entry='step_utilize_nested', key=[2, _key], props=['C12', 'C01', 'C02', 'C11'], unwind=20, objbits=12, timeout=1500, mem_gb=24,
+        cbmc_flags=['--slice-formula'], carriers=[r'C_<.*>::deepReportChangeResumable|C_<.*>::deepReportChange', r'C_<.*>::deepRequestChangeUtilitarian|C_<.*>::deepRequestUtilize'],
+        case_key='resumable region (3 wide) as an option of a utilitarian region (2 wide)/%s region 2' % _kind)
 M_UTILH = Machine('utilh', 'tier_c/m_util.cpp', [-1, 0, 0, 2, 3, 3, 2], ['C', 'L', 'C', 'C', 'L', 'L', 'L'], defs={'VM_HEADLESS_UTIL': None}, unwind=18)
 job(id='C.utilh.utilize_headless.r2', tu=M_UTILH.tu, defs=M_UTILH.defs, entry='step_utilize_nested', key=[2, 1], props=['C12', 'C01', 'C02', 'C11'], tier='thorough', unwind=18, objbits=12, timeout=1500, mem_gb=24, cbmc_flags=['--slice-formula'],
     carriers=[r'C_<.*>::deepReportUtilize', r'S_<.*EmptyT.*>::wrapUtility|S_<.*>::wrapUtility', r'C_<.*>::deepRequestUtilize'], case_key='headless nested utility/utilize region 2 (anonymous head counts as 1)')
@@ -446,6 +454,7 @@ QUICK_TABLE = [
     (r'^C\.plan\.c\d',                   ['C06']),
     (r'^C\.plan2\.',                     ['C06']),
     (r'^C\.utiln\.utilize_nested\.r2$',  ['C12', 'C01']),
+    (r'^C\.utilr\.',                    ['C12', 'C01']),
     (r'^C\.util',                        ['C12']),
     (r'^C\.payload\.',                   ['C14']),
     (r'^C\.log_',                        ['C16']),
